@@ -18,6 +18,7 @@ func init() {
 }
 
 func c16(c *Ctx) {
+	c.pageLoopsComplete("complete", "importToLTX", "Export", "ApplyLTXNoLock")
 	c.clientStatusFamily("http/client", "Import", "Export")
 	p := c.P
 	im := "litefs.(*DB).Import"
